@@ -482,7 +482,7 @@ def verify_fll_schema(run):
     comps = {"InputVariable": (["variable"], "input_variable"), "OutputVariable": (["variable", "output_variable"], "output_variable"), "RuleBlock": (["rule_block"], "rule_block")}
     rs = src.func("variable", "Variable.range", "setter")
     range_ok = ast.unparse(rs.body[-1]) == "self.minimum, self.maximum = min_max"
-    run.add(static("variable.Variable.range/setter_assigns_minimum_and_maximum", range_ok, f"`{ast.unparse(rs.body[-1])}`", fn="variable.Variable.range", meta=RP("fll-structure")))
+    run.add(static("variable.Variable.range/setter_assigns_minimum_and_maximum", range_ok, f"`{ast.unparse(rs.body[-1])}`", fn="variable.Variable.range", meta=dict(RP("fll-structure"), soft=True)))
     for comp, (exp_fns, imp_fn) in comps.items():
         ex_map, im_map = exported(exp_fns), imported(imp_fn)
         ex_map.pop("term", None) if comp == "RuleBlock" else None
